@@ -216,6 +216,7 @@ def apply_substitutions(lines, subs):
 def derive(lines, kind):
     """A copy of a TOUGH2-style listing in which some tables are not printed at some result
     sets.  kind = 'late-<t>[+<t>]': tables t are removed from the FIRST result set;
+    'mid-<t>': removed from the SECOND result set only (present before and after);
     'final-<t>[+<t>]': removed from every result set except the last (what TOUGH2 does when
     only its final printout is complete, as in tests/listing/TOUGH2/11).  A table is removed
     from the line after the separator that precedes its first header up to and including the
@@ -227,7 +228,42 @@ def derive(lines, kind):
     fam = cc.family_of(lines)
     sets = scan_sets(lines, fam)
     bounds = [s['pos'] for s in sets] + [len(lines)]
-    which = [0] if mode == 'late' else list(range(len(sets) - 1))
+    if mode == 'keep':
+        # 'keep-<k>': a cleanly truncated copy holding the first k result sets (cut at the line that announces set k+1)
+        k = int(names[0])
+        if k >= len(sets): return lines
+        cut = bounds[k]
+        while cut > 0 and 'output data after' not in lines[cut].lower() and not _AUT_HEAD.search(lines[cut]): cut -= 1
+        if fam == 'AUTOUGH2': cut -= 2
+        return lines[:cut]
+    if mode == 'shortfirst':
+        # 'shortfirst-<t>': at the FIRST result set every row of table t prints only its first two numbers (one, if it
+        # has only two), so that later rows are longer than every row seen when the table layout was inferred
+        # (generation tables may print incomplete lines)
+        done = False
+        for i in range(bounds[0], bounds[1]):
+            nk = cc._is_header(lines[i])
+            if nk is None or cc._kind(lines[i].split(), nk) not in names: continue
+            sig = header_signature(lines[i])
+            for no, nm, toks in table_rows(lines, bounds[0], bounds[1], sig, False):
+                keep = 2 if len(toks) > 2 else 1
+                if len(toks) > keep:
+                    l = lines[no]
+                    lines[no] = l[:toks[keep - 1]['end']] + l[len(l.rstrip('\r\n')):]
+                    done = True
+            break
+        if not done: raise ValueError('derive(%s): no row could be shortened' % kind)
+        return lines
+    which = [0] if mode == 'late' else [1] if mode == 'mid' else list(range(len(sets) - 1))
+    if fam == 'AUTOUGH2':
+        # an AUTOUGH2 table is the block from its first marker line to its third one (and the blank line after it)
+        for ik in reversed(which):
+            for nm in names:
+                mk = [i for i in range(max(0, bounds[ik] - 1), bounds[ik + 1]) if lines[i][1:6] == nm[0].upper() * 5]
+                if len(mk) < 3: raise ValueError('derive(%s): result set %d does not print %s' % (kind, ik, nm))
+                end = mk[2] + (2 if mk[2] + 1 < len(lines) and not lines[mk[2] + 1].strip() else 1)
+                del lines[mk[0]:end]
+        return lines
     for ik in reversed(which):
         cuts = []
         for i in range(bounds[ik], bounds[ik + 1]):
